@@ -416,3 +416,6 @@ def check_one(case):
         if got != want:
             viol.append(("saveto-on-wrong-bind", f"{b.get('nodeset')}: got {got!r} want {want!r}"))
     return {"outcome": "ok", "nt": True, "viol": viol, "tr": ntr}
+
+# as-built additions of the seventh wave (reported with the bound in the evidence)
+BOUND = {k: v + "; seventh wave: " + 'save_to on one row of every question type (61 type rows) x 5 names of generated nodes x entity label referring to the row or not x top / group' for k, v in BOUND.items()}
